@@ -143,6 +143,19 @@ def gen_history(rng, k):
     return {"id": "p%d" % k, "graph": g, "steps": steps}
 
 
+def gen_wide_history(rng, k, width=10):
+    """many independent targets of one project, each over a few hundred input files, requested together: they check, record
+    and finish at the same moment (concurrent state writes in one .zinoma directory); afterwards everything must be skipped"""
+    root = rng.choice(["_", "R"])
+    ts = [{"proj": root, "name": "w%d" % i, "kind": "b", "deps": [], "outs": [], "noout": i % 3 == 0} for i in range(width)]
+    g = cfg_suite.make_graph(root, ts, [])
+    names = [t["name"] for t in ts]
+    steps = [{"graph": g, "req": names, "clean": False, "invalid": False, "edit": []} for _ in range(3)]
+    steps.append({"graph": g, "req": names, "clean": True, "invalid": False, "edit": []})
+    steps.append({"graph": g, "req": list(reversed(names)), "clean": False, "invalid": False, "edit": []})
+    return {"id": "w%d" % k, "graph": g, "steps": steps, "wide": 250}
+
+
 def tdir(root_dir, g, t):
     return os.path.join(root_dir, cdir(t["proj"], g["root"]))
 
@@ -167,7 +180,13 @@ def run_history(h):
     os.makedirs(os.path.join(d, "lib"))
     g0 = h["graph"]
     for t in g0["targets"]:
-        open(os.path.join(tdir(d, g0, t), "in_" + t["name"]), "w").write("v0\n")
+        p = os.path.join(tdir(d, g0, t), "in_" + t["name"])
+        if h.get("wide"):
+            os.makedirs(p)
+            for j in range(h["wide"]):
+                open(os.path.join(p, "f%d.txt" % j), "w").write("%s %d\n" % (t["name"], j))
+        else:
+            open(p, "w").write("v0\n")
     lines = [{"e": "proj", "id": h["id"]}]
     ver = 0
     for i, s in enumerate(h["steps"]):
@@ -255,6 +274,7 @@ def suite(tier, seed):
         build_traced()
         rng = random.Random(seed * 23 + 11)
         hs = [gen_history(rng, k) for k in range(120 if tier != "thorough" else 1500)]
+        hs += [gen_wide_history(rng, k) for k in range(3 if tier != "thorough" else 20)]
         with cf.ThreadPoolExecutor(NCPU) as ex:
             all_lines = list(ex.map(run_history, hs))
         res = {"violations": [], "tool_errors": [], "histories": len(hs), "invocations": sum(len(x) - 1 for x in all_lines), "samples": [],
